@@ -20,6 +20,9 @@ def gen_rank(rnd: random.Random, rank: int, p: Dict[str, Any]) -> Dict[str, Any]
     T, base = p["T"], p["base"]
     pools = {"COMPUTATION": rnd.sample(COMP, rnd.randint(1, len(COMP))), "COMMUNICATION": rnd.sample(COMM, rnd.randint(1, len(COMM))),
              "MEMORY": rnd.sample(MEM, rnd.randint(1, len(MEM))), "OTHER": rnd.sample(OTHER, rnd.randint(1, len(OTHER)))}
+    if p.get("same_vocab"):
+        # every rank speaks exactly the same vocabulary (a later rank brings no new symbol, only another order of first use)
+        pools = {"COMPUTATION": list(COMP), "COMMUNICATION": list(COMM), "MEMORY": list(MEM), "OTHER": list(OTHER)}
     if p["many_names"]:
         pools["COMPUTATION"] = pools["COMPUTATION"] + [f"kernel_variant_{i}" for i in range(rnd.randint(3, 12))]
         if rnd.random() < 0.3:
@@ -86,14 +89,34 @@ def gen_case(rnd: random.Random, tier: str, need_comm: bool = False, annotations
     # the ranks of a job need not be 0..n-1 (a subset of a larger job's files; a single file of rank 6)
     labels = list(range(n_ranks)) if rnd.random() < 0.6 else sorted(rnd.sample([0, 1, 2, 3, 5, 6, 8, 13, 64], n_ranks))
     p_no_corr = rnd.choice([0.0, 0.0, 0.15, 0.4])
+    same_vocab = n_ranks > 1 and rnd.random() < 0.35
     for r in labels:
         w = rnd.choice([[5, 3, 2, 1], [1, 1, 1, 1], [6, 1, 0, 0], [3, 3, 3, 0]])
         if need_comm and w[1] == 0:
             w = [3, 3, 1, 1]
         p = {"T": T, "base": base + rnd.choice([0, 0, 3, 500]), "n_act": rnd.randint(1, rnd.choice([4, 14, 40])),
              "n_streams": rnd.choice([1, 2, 3, 4]), "p_zero": rnd.choice([0.0, 0.15, 0.3]), "type_weights": w,
-             "many_names": rnd.random() < 0.5, "shuffle": rnd.random() < 0.5, "force_comm": need_comm, "p_no_corr": p_no_corr,
+             "many_names": rnd.random() < 0.5, "shuffle": rnd.random() < 0.5, "force_comm": need_comm, "p_no_corr": p_no_corr, "same_vocab": same_vocab,
              "n_ann": rnd.choice([0, 0, 3, 12]) if annotations else 0,
              "ann_names": rnd.sample(["fwd", "bwd", "opt", "nccl:all_reduce", "fwd_block_1", "fwd_block_2", "loss", "data", "others"], rnd.randint(1, 9))}
         files[f"rank{r}.json"] = gen_rank(rnd, r, p)
+    if same_vocab:
+        # later ranks: the first rank's events under the same names, other durations and another order in the file, so that they
+        # bring no symbol of their own
+        import copy
+        names = list(files)
+        base_tr = files[names[0]]
+        for fn, r in zip(names[1:], labels[1:]):
+            tr = copy.deepcopy(base_tr)
+            head, rest = tr["traceEvents"][:1], [e for e in tr["traceEvents"][1:]]
+            for e in rest:
+                if e.get("ph") == "X" and isinstance(e.get("dur"), int):
+                    e["dur"] = max(0, e["dur"] + rnd.choice([0, 0, 1, 3]))
+                if isinstance(e.get("pid"), int) and e["pid"] >= 4000:
+                    e["pid"] = e["tid"] = 4000 + r
+            rnd.shuffle(rest)
+            head[0]["pid"] = head[0]["tid"] = 4000 + r
+            tr["traceEvents"] = head + rest
+            tr["distributedInfo"] = dict(tr["distributedInfo"], rank=r)
+            files[fn] = tr
     return {"files": files}
